@@ -355,4 +355,8 @@ def sample_spec(draw, min_d=1, max_d=6, min_n=0, max_n=40, datatypes=('I', 'I', 
     spec = dict(version=draw(st.sampled_from(['FCS2.0', 'FCS3.0', 'FCS3.1'])), datatype=dt,
                 byteord=('1,2,3,4' if little else '4,3,2,1'), widths=widths, ranges=ranges, names=list(names),
                 pne=pne, png=png, pnv=pnv, pns=pns, n=n, data_seed=draw(st.integers(0, 2 ** 20)))
+    # optional per-parameter keywords may live in the supplemental TEXT segment (FCS3.0 and later)
+    moved = draw(st.sampled_from([None, None, None, ['G'], ['V', 'S'], ['G', 'V', 'S']]))
+    if moved and spec['version'] != 'FCS2.0':
+        spec['in_stext'] = moved
     return spec
